@@ -48,3 +48,101 @@ VH_OP(encpoke) {
   auto &dec = vh::registry()["dec"];
   return "ok " + h2 + " | " + dec({"dec", "-", h2}) + " | " + dec({"dec", "01234", h2}) + " | " + dec({"dec", skip, h2});
 }
+
+// skipapply <skip types> <hex>: the consumer side of the skip option on the REAL classes. Decodes the stream
+// ordinarily and with SetSkipAttributeTransform(types); for every skipped attribute that carries transform data,
+// applies the described transform with AttributeQuantizationTransform / AttributeOctahedronTransform
+// (InitFromAttribute + InverseTransformAttribute) — ONE transform object of each kind reused for all attributes, as
+// a consumer looping over attributes would — and compares the result with the ordinary decode of the attribute with
+// the same unique id, byte for byte.
+//   -> ok <attributes checked> | mismatch uid=<id> value=<index> | err (either decode failed) | no-such-attribute uid=<id>
+#include "draco/attributes/attribute_octahedron_transform.h"
+#include "draco/attributes/attribute_quantization_transform.h"
+#include "draco/compression/decode.h"
+
+namespace {
+std::unique_ptr<draco::PointCloud> decode_obj(const std::vector<uint8_t> &d, const std::string &skip) {
+  draco::DecoderBuffer b;
+  b.Init(reinterpret_cast<const char *>(d.data()), d.size());
+  draco::Decoder dec;
+  for (char c : skip)
+    if (c >= '0' && c <= '4') dec.SetSkipAttributeTransform(static_cast<draco::GeometryAttribute::Type>(c - '0'));
+  auto t = draco::Decoder::GetEncodedGeometryType(&b);
+  if (!t.ok()) return nullptr;
+  if (t.value() == draco::TRIANGULAR_MESH) {
+    auto r = dec.DecodeMeshFromBuffer(&b);
+    if (!r.ok()) return nullptr;
+    return std::move(r).value();
+  }
+  if (t.value() == draco::POINT_CLOUD) {
+    auto r = dec.DecodePointCloudFromBuffer(&b);
+    if (!r.ok()) return nullptr;
+    return std::move(r).value();
+  }
+  return nullptr;
+}
+}  // namespace
+
+VH_OP(skipapply) {
+  if (a.size() < 3) return "bad-op";
+  auto d = vh::unhex(a[2]);
+  auto plain = decode_obj(d, "-");
+  auto skipped = decode_obj(d, a[1]);
+  if (!plain || !skipped) return "err";
+  draco::AttributeQuantizationTransform qt;   // reused for every attribute
+  draco::AttributeOctahedronTransform ot;     // reused for every attribute
+  int checked = 0;
+  for (int i = 0; i < skipped->num_attributes(); ++i) {
+    const draco::PointAttribute *sa = skipped->attribute(i);
+    const draco::AttributeTransformData *td = sa->GetAttributeTransformData();
+    if (!td) continue;
+    // only attributes whose type was asked to be skipped expose portable values (a legacy decode may leave the
+    // transform description attached to an ordinary, already transformed attribute)
+    if (a[1].find(static_cast<char>('0' + static_cast<int>(sa->attribute_type()))) == std::string::npos) continue;
+    // both decodes list the attributes in stream order; the unique id must agree (legacy streams may carry the
+    // same unique id on several attributes, so the position in the list identifies the attribute)
+    const draco::PointAttribute *pa = i < plain->num_attributes() ? plain->attribute(i) : nullptr;
+    if (!pa || pa->unique_id() != sa->unique_id()) return "no-such-attribute uid=" + std::to_string(sa->unique_id());
+    draco::PointAttribute target;
+    target.Init(pa->attribute_type(), pa->num_components(), pa->data_type(), pa->normalized(), sa->size());
+    bool ok = false;
+    if (td->transform_type() == draco::ATTRIBUTE_QUANTIZATION_TRANSFORM) {
+      ok = qt.InitFromAttribute(*sa) && qt.InverseTransformAttribute(*sa, &target);
+    } else if (td->transform_type() == draco::ATTRIBUTE_OCTAHEDRON_TRANSFORM) {
+      ok = ot.InitFromAttribute(*sa) && ot.InverseTransformAttribute(*sa, &target);
+    } else {
+      continue;
+    }
+    if (!ok) return "transform-failed uid=" + std::to_string(sa->unique_id());
+    ++checked;
+    const size_t stride = pa->byte_stride();
+    // compare per point (the ordinary decode may hold its values under a different point->value mapping)
+    for (uint32_t p = 0; p < plain->num_points() && p < skipped->num_points(); ++p) {
+      const uint8_t *x = pa->GetAddress(pa->mapped_index(draco::PointIndex(p)));
+      const uint8_t *y = target.GetAddress(sa->mapped_index(draco::PointIndex(p)));
+      if (memcmp(x, y, stride) != 0)
+        return "mismatch uid=" + std::to_string(sa->unique_id()) + " point=" + std::to_string(p);
+    }
+  }
+  return "ok " + std::to_string(checked);
+}
+
+// encskipapply skip=<types> <enc args…> -- <geometry>: `enc`, then `skipapply` on the produced stream
+VH_OP(encskipapply) {
+  vh::Args e;
+  e.push_back("enc");
+  std::string skip = "01234";
+  for (size_t i = 1; i < a.size(); ++i) {
+    if (a[i].rfind("skip=", 0) == 0) {
+      skip = a[i].substr(5);
+      continue;
+    }
+    e.push_back(a[i]);
+  }
+  std::string r = vh::registry()["enc"](e);
+  if (r.rfind("ok ", 0) != 0) return r;
+  std::istringstream ss(r);
+  std::string okt, hx;
+  ss >> okt >> hx;
+  return vh::registry()["skipapply"]({"skipapply", skip, hx});
+}
